@@ -1587,6 +1587,22 @@ def run(ck):
             if rec.failed is not None:
                 ck.violation({'kind': 'impl-violation', 'what': 'store operation raised', 'scenario': sr,
                               'op_index': rec.failed[0], 'exception': rec.failed[1]})
+            unseen = [ev for ev in rec.events if ev.get('unseen') and ev['op'] in ('create', 'unlink')]
+            if unseen:
+                # files appeared / vanished without an intercepted primitive: the recorded trace does not explain the
+                # directory, so neither the trace validation nor crash images built from it mean anything
+                ck.count('scenarios with incomplete interposition')
+                ck.violation({'kind': 'harness-error', 'what': 'interposition incomplete: the recorded primitives do not explain the directory listing',
+                              'scenario': sr, 'unexplained': [dict((k, v) for k, v in ev.items() if k != 'unseen') for ev in unseen[:8]]},
+                             found_input=False)
+                for o in rec.ops:
+                    for pr in o.reader_problems[:3]:
+                        ck.violation({'kind': 'impl-violation', 'what': 'concurrent reader: ' + pr['class'], 'scenario': sr,
+                                      'op_index': o.index, 'reader': pr})
+                    for cls, det in o.final_problems[:3]:
+                        ck.violation({'kind': 'impl-violation', 'what': 'no crash: ' + cls, 'scenario': sr, 'op_index': o.index, 'detail': det})
+                shutil.rmtree(root, ignore_errors=True)
+                continue
             if rec.unsupported:
                 ck.violation({'kind': 'correspondence', 'what': 'primitive outside the trace alphabet (link/symlink/rmdir/directory rename)',
                               'scenario': sr, 'primitives': rec.unsupported[:10]})
